@@ -12,13 +12,13 @@ CONSTANTS
   FixedFinalInString = TRUE
   FixedNestedLiteral = TRUE
   BugBuiltinsFirst = FALSE
-  AnnChoices = {"noann", "int", "QA"}
-  DefaultChoices = {"none", "int:1", "name", "call", "lambda"}
-  RetChoices = {"noann", "None", "QA", "IterInt", "AIterInt"}
+  AnnChoices = {"noann", "int"}
+  DefaultChoices = {"none"}
+  RetChoices = {"noann", "AIterInt"}
   AsyncChoices = {FALSE, TRUE}
-  FutureChoices = {FALSE, TRUE}
+  FutureChoices = {FALSE}
   DunderChoices = {FALSE}
-  MaxParams = 2
+  MaxParams = 1
   MaxPos = 2
   MaxKw = 1
   BugRuntimeIgnoresKwDefaults = FALSE
@@ -27,8 +27,6 @@ CONSTANTS
   BugBoundKeepsFirst = FALSE
   BugAsyncGenWrapped = FALSE
   FixedDeclaredReturn = FALSE
-  FixedAsyncGenInferred = TRUE
-INVARIANT ShapeViewsAgree
+  FixedAsyncGenInferred = FALSE
 INVARIANT CallAwaitableAgrees
-INVARIANT EmitShape
 CHECK_DEADLOCK FALSE
